@@ -1066,6 +1066,25 @@ theorem decodeParams_shape (ts : List Ty) (block : Bytes) (offset : Nat) (v : CV
   · cases h
 
 
+/-! ### re-encoding a returned tree -/
+
+/-- **PARTIAL — "if a returned tree can be re-encoded then decoding that encoding yields the same tree".**
+    Full statement (over the model): `decodeParams ts block off = .ok v → encode (.tuple ns ts) v = .ok (e, d) →
+    decodeParams ts e 0 = .ok v`. Proved here under the extra hypothesis that the returned tree is a value of the type in
+    the specification's sense (`wellTypedEach`: every `bool` word is 0 or 1, every `int<M>` lies within `M` bits) and of
+    addressable size (`Small`): its re-encoding is then the specification encoding (that step is C02 `encode_eq_spec`,
+    stated over C02's own copies of `ValidTy` / `Small`), and decoding the specification encoding returns the same tree
+    (C03 `decodeParams_enc`). What is missing: trees the decoder returns that lie outside `WellTyped` — a `bool` decoded
+    from a word other than 0/1 and an `int<M>` whose word is not sign-extended are returned as the integer the word holds
+    (`decode_shape` bounds them by 2^8 / 256 bits only) — for these the statement is decided by the correspondence run
+    (`abi.stable` cases), not proved. -/
+theorem reencode_stable_partial (ns : List String) (ts : List Ty) (cs : List CV) (block : Bytes) (off : Nat)
+    (hv : FFS.Props.C03.ValidTys ts) (_hdec : decodeParams ts block off = .ok (.kids cs))
+    (hw : Spec.Abi.wellTypedEach ts cs = true) (hs : FFS.Props.C03.Small (.tuple ns ts) (.kids cs)) :
+    decodeParams ts (Spec.Abi.enc (.tuple ns ts) (.kids cs)) 0 = .ok (.kids cs) := by
+  have := FFS.Props.C03.decodeParams_enc ns ts cs [] [] hv hw hs
+  simpa using this
+
 /-! ### non-vacuity: concrete inputs on which the hypotheses hold (evaluated by the kernel) -/
 def okB {α : Type} : Outcome α → Bool | .ok _ => true | _ => false
 /-- non-vacuity: a well-formed `uint256[]` block decodes to a two-element array; a block claiming 2^200 elements is an error -/
